@@ -6,7 +6,7 @@ HOOKS = {
     "add_only": True,
 }
 ENGINES = [
-    {"name": "benum", "path": "engine/benum", "serves_properties": ["C04", "C10", "C11", "C12", "C13", "C14", "C15", "C16", "C17", "C18", "C20"],
+    {"name": "benum", "path": "engine/benum", "serves_properties": ["C04", "C06", "C09", "C10", "C11", "C12", "C13", "C14", "C15", "C16", "C17", "C18", "C20"],
      "kind_free_text": "bounded exhaustive enumeration runtime: rank<->case bijections, 16-way sharding, fork isolation with progress cell, line protocol to the driver"},
     {"name": "vsched", "path": "engine/vsched", "serves_properties": ["C05", "C07", "C19"],
      "kind_free_text": "cooperative scheduler by link-time interposition of pthread mutex/cond/create/join, futex syscall and clock_gettime + stateless DFS explorer with iterative deviation bounding, 16 forked workers sharing a work stack, determinism re-runs, deadlock/livelock/hang detection, replay of recorded choice sequences"},
@@ -24,6 +24,18 @@ CHECKS = {
                 "and up to depth 3|4|5 over reduced alphabets is executed on real buffers of every capacity 64..640 step 8 in all three growth modes; after every operation the nested chain + committed + uncommitted bytes are walked and compared field by field with a model; "
                 "plus all item sequences x removed masks for purge and all CallbackBuffer histories of length <= 5.",
         "note": "What purge_removed() does with uncommitted data or with top-level items that are not OSM entities, and the exact capacity after growth, are left open (counted). Histories deeper than the stated bounds are not covered.",
+    },
+    "C06": {
+        "engine": "benum", "level": "exploration",
+        "technique": "exhaustive enumeration of segmentations (every single cut, every pair of cuts, all uniform piece sizes, one-byte pieces around every position) of spec-generated seed files and all their truncations, delivered to the real parsers through a pre-filled input queue, a chunking decompressor under the full Reader, small input buffers and short read(2) answers; result compared with the one-piece baseline",
+        "text": "46 seed files in OPL, XML, o5m/o5c and PBF (written by specification-derived encoders) and every proper prefix of two seeds per format are parsed under every single cut, every uniform piece size, one-byte pieces around every position and every pair of cuts (quick: pairs on the 30 small seeds; thorough: all seeds and prefixes), through four delivery paths (parser on a pre-filled queue, full Reader with a chunking decompressor, real plain/gzip/bzip2 files with input buffer sizes 1,2,3,5,7,64, short reads at every offset); header, object dump and error type/message must equal the unsplit baseline.",
+        "note": "Three or more simultaneous cuts are only covered through the uniform and one-byte families; across the PBF fd path and queue path only header, objects and eof-or-error are compared (the error wording differs by design).",
+    },
+    "C09": {
+        "engine": "benum", "level": "fault_enumeration",
+        "technique": "exhaustive enumeration of stream splittings (1..3 concatenated streams at boundary-aligned positions), every truncation length and every single-byte corruption (8 bit flips | 255 values) of small compressed files, large-file truncations around every read-ahead size and trailer, x {gzip, bzip2} x {fd, memory buffer} x input buffer sizes {1 MiB, 4096, 7}; output compared with Python's gzip/bz2 as reference decompressor",
+        "text": "Every small file (1-3 streams) under every truncation length and every byte position x 8 bit flips (thorough: 255 values); 2-3 stream files with every stream/file end placed on and around 4096, 5000n, 8192, 10240; 19 payload sizes x every splitting into 1..3 streams; large files truncated around every boundary; round trips of the library's own compressors - each through the real fd and memory-buffer decompressors: bytes equal to the reference, offset() <= file size, empty chunk only at the true end, truncated/corrupted streams never accepted as a proper prefix.",
+        "note": "Corruptions for which the reference itself returns bytes, trailer truncations that still deliver the whole payload and the zero-length file are left open (counted). zlib's gzread policy of ignoring trailing garbage gives three known findings.",
     },
     "C10": {
         "engine": "benum", "level": "exploration",
